@@ -32,7 +32,6 @@ RULE = ("small-scope sweep: all ordered pairs of (call, canonical argument) over
 ASSUMPTIONS = ["register map and write masks of the chip model follow the nRF24L01+ datasheet",
                "where docs and code disagree on an out-of-domain argument without any register becoming illegal "
                "(pa_level invalid: docs 'default 0 dBm' / code ValueError; crc negative: docs 'clamped' / code magnitude) both are accepted",
-               "a dirty non-plus chip whose features are activated while FEATURE==0 is not generated (variant detection cannot work there)",
                "non-plus chips: start/stop_carrier_wave are skipped (documented to overwrite configuration)",
                "addresses of 1..5 bytes only"]
 CLAUSES = {"encoding": "registers hold exactly the documented encoding; no foreign register/bit altered",
@@ -196,8 +195,8 @@ def dirty_chip(radio, rng):
         radio.a[reg] = bytearray(rng.getrandbits(8) for _ in range(5))
     if not radio.plus:
         radio.features_active = rng.random() < 0.5
-        if radio.features_active and radio.r[0x1D] == 0:
-            radio.r[0x1D] = rng.choice([1, 2, 4, 5, 7])
+        if rng.random() < 0.3:
+            radio.r[0x1D] = 0   # the state in which the ACTIVATE toggle test alone cannot tell the variants apart (D17)
     radio.flags = rng.choice([0, 0x10, 0x20, 0x40, 0x70])
     for _ in range(rng.randint(0, 3)):
         radio.rx_fifo.append((rng.randrange(6), bytes(rng.getrandbits(8) for _ in range(rng.randint(1, 32)))))
